@@ -1152,6 +1152,63 @@ def array_cases(rnd, n):
     return out
 
 
+def loop_fragment_cases(rnd, n):
+    """programs of the fragment of coq/Lang/LoopProofs.v: includes, registers, flat basis-gate operations with literal
+    parameters, and top-level loops `for int i in [a:b]` over such operations indexed by literals or the loop variable
+    (theorem loops_unroll_to_their_instances says what unroll() must emit for every one of them); a share leaves the
+    fragment on purpose (an index outside the register in some iteration, a repeated operand at one value)"""
+    out = []
+    g1 = ["h", "x", "y", "z", "s", "t", "sdg", "tdg", "sx", "id"]
+    gp = ["rx", "ry", "rz"]
+    g2 = ["cx", "cz", "swap"]
+    for _ in range(n):
+        nq, nc = rnd.randint(3, 6), rnd.randint(2, 4)
+        bad = rnd.random() < 0.12
+        L = ["qubit[%d] q;" % nq, "bit[%d] c;" % nc]
+
+        def op(var, lo, hi):
+            """one operation; `var` indexes when it fits the register for every value lo..hi"""
+            def qidx(limit, avoid=()):
+                if var and hi < limit and lo >= 0 and rnd.random() < 0.6 and var not in avoid:
+                    return var
+                ks = [k for k in range(limit) if k not in avoid and not (var in avoid and lo <= k <= hi)]
+                return rnd.choice(ks) if ks else None
+            c = rnd.random()
+            if c < 0.3:
+                return "%s q[%s];" % (rnd.choice(g1), qidx(nq))
+            if c < 0.5:
+                return "%s(%s) q[%s];" % (rnd.choice(gp), rnd.choice(["0.5", "2", "1.25", "3"]), qidx(nq))
+            if c < 0.7:
+                a = qidx(nq)
+                b = qidx(nq, avoid=(a,) if a != var else (var,) + tuple(range(lo, hi + 1)))
+                if b is None or (a == var and b == var):
+                    return "h q[%s];" % a
+                if a != var and b == var and lo <= a <= hi:
+                    return "x q[%s];" % a
+                return "%s q[%s], q[%s];" % (rnd.choice(g2), a, b)
+            if c < 0.8:
+                return "c[%s] = measure q[%s];" % (qidx(nc), qidx(nq))
+            if c < 0.9:
+                return "reset q[%s];" % qidx(nq)
+            return "barrier q[%s];" % qidx(nq)
+        for _k in range(rnd.randint(2, 5)):
+            if rnd.random() < 0.55:
+                lo = rnd.randint(0, 2)
+                hi = rnd.randint(lo - 1, min(nq, nc) - 1)
+                if hi < 0:
+                    lo, hi = 1, 0          # an empty range without a negated literal
+                if bad and rnd.random() < 0.5:
+                    hi = nq + rnd.randint(0, 1)
+                body = [op("i", lo, hi) for _j in range(rnd.randint(1, 3))]
+                if bad and rnd.random() < 0.5:
+                    body.append("cx q[%d], q[i];" % rnd.randint(lo, max(lo, hi)))
+                L.append("for int i in [%d:%d] { %s }" % (lo, hi, " ".join(body)))
+            else:
+                L.append(op(None, 0, -1))
+        out.append(H3 + "\n".join(L) + "\n")
+    return out
+
+
 def array_arith_cases():
     """elements of an array of every element type combined with each other (and with scalars of the same type) by the
     arithmetic operators inside a larger expression, the result used as an angle, a qubit index, a loop bound and an
